@@ -10,6 +10,9 @@ def run(tier, seed):
     deductive(rep, "C02", FUNCS, "contracts.block")
     lines_universe(rep, "vf.oracles:c02_stream", tier, "MarkdownIt.parse/parseInline", "balanced pairs (kind, tag, markup), level == depth, block flags, merged text, no text_special, tree constructible")
     inline_universe(rep, "vf.oracles:c02_stream", tier, "MarkdownIt.parse/parseInline", "same stream contract on inline-heavy inputs", quick_k=3, thorough_k=4)
+    from ..propbase import gen_universe
+    gen_universe(rep, "vf.oracles:c02_stream", "vf.universe:gen_emph", tier, "MarkdownIt.parse/render", "same contract on delimiter-heavy inputs (emphasis/strikethrough pairing inside links)",
+                 ["commonmark", "cm+table+strike"], "all concatenations of <= k pieces over {*, **, _, ~~, ~, a, space, [, ](x), b}", "delimiter universe")
     rep.explanation = (
         "Mixed. Deductive: StateBlock.push is inlined into every leaf block rule and the postconditions 'tokens appended are balanced, level == entry "
         "level + depth, nesting/type/tag as specified, block flag set, state.level restored' are discharged for the seven leaf rules. Bounded: the full "
